@@ -139,7 +139,8 @@ class C12:
                    'null-row suppression of the exporter is recomputed from the abstract document (rows whose exported cells are all . or *)']
     PROBES = ['fault_after_split', 'fault_in_subspine', 'fault_after_join', 'adjacent_faults', 'fault_in_non_kern', 'fault_in_last_row',
               'fault_in_bar_row', 'fault_in_interp_row', 'two_imports_one_process', 'history_err_then_valid', 'blank_line_before_fault',
-              'fault_in_second_kern_spine', 'later_kern_cell_after_fault', 'dropped_row_resurrected', 'leading_blank_line', 'interrupt_delivered', 'same_malformed_text_twice_in_a_row']
+              'fault_in_second_kern_spine', 'later_kern_cell_after_fault', 'dropped_row_resurrected', 'leading_blank_line', 'interrupt_delivered', 'same_malformed_text_twice_in_a_row',
+              'damaged_text_loaded_from_file', 'file_import_under_non_utf8_locale']
 
     # ---------------------------------------------------------------- plan
     def gen_plan(self, seed, index, tier):
@@ -201,7 +202,14 @@ class C12:
                 blank = sorted(erng.randrange(0, first + 1) for _ in range(n_blank))      # 0 = the text BEGINS with a blank line
         return {'property': self.PROPERTY, 'mode': 'doc', 'config': 'fault_free' if fault_free else 'fault_injecting',
                 'doc': doc.to_json(), 'eol': erng.choice(['\n', '\n', '\n', '\r\n']), 'final_newline': erng.random() < 0.8,
-                'faults': faults, 'blank_lines': blank, 'warnings': 'error' if erng.random() < 0.08 else 'default'}
+                'faults': faults, 'blank_lines': blank, 'warnings': 'error' if erng.random() < 0.08 else 'default',
+                # (session 3) the damaged text reaches the importer through load() on the simulated file system in a fifth of the
+                # runs: chunked reads that split multi-byte characters and CRLF pairs, EINTR, a non-UTF-8 locale (import_file names
+                # its encoding, so the locale must not matter). Drawn last from the env stream: earlier draws are unchanged.
+                'via': 'file' if erng.random() < 0.2 else 'string',
+                'fs': {'io_seed': erng.randrange(1 << 30), 'chunking': erng.choice(['small', 'tiny', 'tiny', 'whole']),
+                       'locale': erng.choice(['utf-8', 'latin-1', 'ascii', 'cp1252']), 'faults': [], 'actor': [],
+                       'eintr': erng.random() < 0.4, 'pathtype': erng.choice(['str', 'Path'])}}
 
     def _gen_history(self, st):
         rng, frng, erng = st['ops'], st['faults'], st['env']
@@ -305,7 +313,10 @@ class C12:
             for f in faults:
                 bump(faults_fired, f['kind'])
             try:
-                bad_doc, bad_err = kp.loads(bad_text)
+                if plan.get('via') == 'file':
+                    bad_doc, bad_err = self._load_via_file(kp, plan, bad_text, probes, bump, faults_fired)
+                else:
+                    bad_doc, bad_err = kp.loads(bad_text)
             except Exception as e:
                 log.emit('fault', 'loads-damaged', [[f['row'], f['col'], f['text']] for f in faults], 'raised ' + type(e).__name__)
                 add_v('import-raised', 'import-raised/damaged', 'a document and an error list', type(e).__name__,
@@ -332,6 +343,33 @@ class C12:
 
         nontrivial = any(headers[doc.rows[f['row']].cells[f['col']].spine] in KERN_PARSED for f in faults) and probes.get('later_kern_cell_after_fault', 0) > 0
         return self._result(plan, log, viol, faults_fired, probes, doc, nontrivial)
+
+    @staticmethod
+    def _load_via_file(kp, plan, text, probes, bump, faults_fired):
+        """The damaged text stored as a file of the simulated OS and imported with kp.load (Importer.import_file)."""
+        import pathlib
+        from simkit.simfs import SimFS, PREFIX
+        from simkit.runner import kernpy_src, HarnessError
+        fsplan = dict(plan['fs'])
+        path = PREFIX + '/in/score.krn'
+        if fsplan.get('eintr'):
+            fsplan['faults'] = [{'kind': 'eintr_read', 'at': {'call': 1 + fsplan['io_seed'] % 3}, 'path': path}]
+        fs = SimFS(fsplan, None)
+        fs.guard_root = kernpy_src() + '/kernpy'
+        fs.mkdirs(PREFIX + '/in')
+        fs.cwd = PREFIX
+        fs.put(path, text.encode('utf-8'))
+        bump(probes, 'damaged_text_loaded_from_file')
+        if fsplan['locale'] != 'utf-8':
+            bump(probes, 'file_import_under_non_utf8_locale')
+        with fs.mount():
+            res = kp.load(pathlib.Path(path) if fsplan.get('pathtype') == 'Path' else path)
+        for kf, vf in fs.stats.items():
+            if kf.startswith('fault_'):
+                bump(faults_fired, kf, vf)
+        if fs.escapes:
+            raise HarnessError('closure guard: real-path I/O from kernpy during a simulated run: ' + '; '.join(fs.escapes[:3]))
+        return res
 
     @staticmethod
     def _safe(fn):
